@@ -3,6 +3,8 @@ package props
 import (
 	"fmt"
 
+	jd "github.com/josephburnett/jd/v2"
+
 	"verifharness/gen"
 	"verifharness/mon"
 	"verifharness/ref"
@@ -84,7 +86,16 @@ func c06Judge(c *mon.Ctx, arrA, arrB []any, wrap int, scalarOnly bool) {
 	aText, bText := ref.ToJSON(a), ref.ToJSON(b)
 	c.Input("a", aText)
 	c.Input("b", bText)
-	d := ReadJ(aText).Diff(ReadJ(bText))
+	B := ReadJ(bText)
+	if c.R.Chance(0.25) {
+		// b as the in-memory result of a Patch: the same document, but made of the nodes Patch builds
+		if P, ok := viaPatch(c.R, b); ok {
+			B = P
+			c.Input("b_built_by", "Patch (not re-parsed)")
+			c.Feature("b_is_patch_result")
+		}
+	}
+	d := ReadJ(aText).Diff(B)
 	hs := Hunks(d)
 	diffFeatures(c, hs)
 	if len(hs) > 0 {
@@ -121,6 +132,29 @@ func c06Judge(c *mon.Ctx, arrA, arrB []any, wrap int, scalarOnly bool) {
 	c.Sample(extra)
 }
 
+// viaPatch builds the document b as the in-memory result of patching a
+// perturbed copy of b back into b (so it contains whatever node types Patch
+// produces), checked equal to b.
+func viaPatch(r *gen.RNG, b any) (jd.JsonNode, bool) {
+	other := gen.Perturb(r, gen.PTiny, b)
+	oText, bText := ref.ToJSON(other), ref.ToJSON(b)
+	// the patch that builds b may itself be a list, set, multiset or merge patch
+	modes := []OptSet{OptNone, OptNone, OptSetO, OptMset}
+	if !ref.HasNull(b) && !ref.HasNull(other) {
+		modes = append(modes, OptMerge)
+	}
+	o := gen.Pick(r, modes)
+	var P jd.JsonNode
+	var err error
+	if pan := mon.Safe(func() { P, err = ReadJ(oText).Patch(ReadJ(oText).Diff(ReadJ(bText), o.O()...)) }); pan != "" || err != nil || P == nil {
+		return nil, false
+	}
+	if !ref.Eq(Plain(P), b, ref.List) {
+		return nil, false // a set / multiset patch may legitimately reorder: only exact copies of b are used
+	}
+	return P, true
+}
+
 func init() {
 	p := &mon.Property{
 		ID: "C06",
@@ -128,7 +162,7 @@ func init() {
 			"random long arrays (<=40) over tiny alphabets, arrays of 100-600 elements with a few localised edits, arrays mixing scalars with aligned same-kind containers that differ inside, and random nested documents (context only); " +
 			"oracle: textbook LCS DP for the edit counts, stepwise reference interpretation for the context lines; non-trivial = non-empty diff; distinct = distinct (a, b)",
 		Floors: map[string]int{"index_hunks": 20000, "before_is_element": 5000, "before_is_boundary": 5000, "after_is_element": 5000, "after_is_boundary": 5000,
-			"long_array": 2000, "very_long_array": 1000, "mixed_recursed": 500, "hunk_nested_arrays": 2000},
+			"long_array": 2000, "very_long_array": 1000, "b_is_patch_result": 5000, "mixed_recursed": 500, "hunk_nested_arrays": 2000},
 		Assumptions: []string{
 			"minimality is a count against the optimum (len - LCS on each side), not identity of the script: several optimal scripts exist",
 			"for arrays holding containers only the upper bound is demanded (recursing removes fewer elements than an LCS over whole values)",
